@@ -196,7 +196,7 @@ func TestDriveC18(t *testing.T) {
 	// the configuration file itself: checked iff it declares a cmd sensor or fan
 	if shard == 0 {
 		cfgFile := filepath.Join(dir, "fan2go.yaml")
-		for _, decl := range []string{"none", "cmdsensor", "cmdfan"} {
+		for _, decl := range []string{"none", "cmdsensor", "cmdsensorUsed", "cmdfan", "cmdfanOnly"} {
 			for _, perm := range [][3]int{{0, 0, 0o644}, {1000, 0, 0o644}, {0, 1000, 0o664}, {0, 0, 0o646}, {0, 1000, 0o644}, {0, 0, 0o600}} {
 				must(os.WriteFile(cfgFile, []byte("# test\n"), 0600))
 				must(os.Chown(cfgFile, perm[0], perm[1]))
@@ -209,6 +209,11 @@ func TestDriveC18(t *testing.T) {
 				switch decl {
 				case "cmdsensor":
 					cc.Sensors = append(cc.Sensors, configuration.SensorConfig{ID: "s2", Cmd: &configuration.CmdSensorConfig{Exec: "/bin/true"}})
+				case "cmdsensorUsed": // the command sensor is the one the curve reads
+					cc.Sensors = []configuration.SensorConfig{{ID: "s", Cmd: &configuration.CmdSensorConfig{Exec: "/bin/true"}}}
+				case "cmdfanOnly": // the command fan is the only fan
+					cc.Fans = []configuration.FanConfig{{ID: "f", Curve: "c", Cmd: &configuration.CmdFanConfig{
+						SetPwm: &configuration.ExecConfig{Exec: "/bin/true"}, GetPwm: &configuration.ExecConfig{Exec: "/bin/true"}}}}
 				case "cmdfan":
 					cc.Fans = append(cc.Fans, configuration.FanConfig{ID: "f2", Curve: "c", Cmd: &configuration.CmdFanConfig{
 						SetPwm: &configuration.ExecConfig{Exec: "/bin/true"}, GetPwm: &configuration.ExecConfig{Exec: "/bin/true"}}})
